@@ -23,7 +23,7 @@ RULE_TEXT = ('runs = seeded random suite hierarchies (depth <= 3, <= 3 sub-suite
              'file); a fixed sweep assigns every verdict to a case of a one-suite and of a two-level hierarchy. Each '
              'plan runs with both reporters. Non-trivial = >= 2 cases or a structural fault; distinct = (hierarchy '
              'shape, listing styles, multiset of endings, structural fault).')
-REACH_PROBES = ['suite_with_preprocessor_and_several_cases', 'invalid_not_text', 'case_name_with_glob_characters_listed_in_quotes', 'launched_with_directory_argument', 'launched_from_another_directory', 'case_listed_twice_in_one_suite', 'case_listed_twice_ends_differently', 'section_reopened', 'suites_by_glob_of_directories', 'suites_by_glob_of_files', 'ending_processor_fails', 'verdict_PASS', 'verdict_FAIL', 'verdict_XFAIL', 'verdict_XPASS', 'verdict_SKIPPED',
+REACH_PROBES = ['suite_with_preprocessor_and_several_cases', 'invalid_not_text', 'case_name_with_glob_characters_listed_in_quotes', 'launched_with_directory_argument', 'launched_from_another_directory', 'case_listed_twice_in_one_suite', 'case_listed_twice_ends_differently', 'section_reopened', 'section_headers_indented', 'suites_by_glob_of_directories', 'suites_by_glob_of_files', 'ending_processor_fails', 'verdict_PASS', 'verdict_FAIL', 'verdict_XFAIL', 'verdict_XPASS', 'verdict_SKIPPED',
                 'verdict_VALIDATION_ERROR', 'verdict_HARD_ERROR', 'verdict_INTERNAL_ERROR', 'verdict_SYNTAX_ERROR',
                 'verdict_FILE_ACCESS_ERROR', 'ending_act_syntax', 'ending_unreadable', 'ending_timeout', 'all_ok',
                 'some_unsuccessful', 'sub_suite', 'depth_3', 'glob_listing', 'directory_reference', 'invalid_twice',
@@ -47,6 +47,11 @@ ENDINGS = {
     'HARD_ERROR_timeout': ('[setup]\n% mark-{id}\ntimeout = 2\n[act]\n% atc\n[before-assert]\n% stall\n', 'HARD_ERROR', True),
     'HARD_ERROR_spawn': ('[setup]\n% mark-{id}\n[act]\n% nostart\n', 'HARD_ERROR', True),
     'INTERNAL_ERROR': ('[setup]\n% mark-{id}\n[act]\n% atc\n[assert]\nsim-fault ax{id}\n', 'INTERNAL_ERROR', True),
+    # failures in the [conf] phase itself (before anything else of the case is looked at)
+    'CONF_VALIDATION_ERROR': ('[conf]\nhome = no-such-dir-{id}\n' + PASS_BODY, 'VALIDATION_ERROR', False),
+    'CONF_VALIDATION_ERROR_act_home': ('[conf]\nact-home = no-such-dir-{id}\n' + PASS_BODY, 'VALIDATION_ERROR', False),
+    'CONF_HARD_ERROR': ('[conf]\nsim-fault cx{id}\n' + PASS_BODY, 'HARD_ERROR', False),
+    'CONF_INTERNAL_ERROR': ('[conf]\nsim-fault cx{id}\n' + PASS_BODY, 'INTERNAL_ERROR', False),
     'SYNTAX_ERROR': ('[setup]\n% mark-{id}\nno-such-instruction\n[act]\n% atc\n', 'SYNTAX_ERROR', False),
     'ACT_SYNTAX_ERROR': ("[setup]\n% mark-{id}\n[act]\n'unterminated quote\n", 'SYNTAX_ERROR', False),
     'FILE_ACCESS_ERROR': ('[setup]\n% mark-{id}\nincluding no-such-file.xly\n[act]\n% atc\n', 'FILE_ACCESS_ERROR', False),
@@ -143,6 +148,8 @@ def gen_hierarchy(g, force_subs=False):
         # "A section may appear any number of times. The contents of all appearances are accumulated."
         s['reopen'] = g.random() < 0.3
         s['subs_style'] = 'explicit'
+        # a section header may be preceded by white space
+        s['indent'] = ''
         if s['subs'] and g.random() < 0.4:
             style = g.choice(['glob_dirs', 'glob_files'])
             s['subs_style'] = style
@@ -186,6 +193,10 @@ def _plan(seed, tier, g, h, fault, sweep):
     launch = kernel.stream(seed, 'launch').choice([None, None, 'dir', 'elsewhere'])
     if launch == 'dir':
         h['root']['file'] = 'exactly.suite'
+    ig = kernel.stream(seed, 'indent')
+    for key in sorted(h):
+        if ig.random() < 0.2:
+            h[key]['indent'] = ig.choice(['  ', ' ', '\t', '    '])
     return {'launch': launch, 'format': 1, 'property': PROPERTY, 'engine': 'c16', 'run_seed': seed, 'tier': tier,
             'knobs': {'mem_buff_size': g.choice([1, 8192])}, 'entry': 'cli', 'hierarchy': h, 'struct_fault': fault,
             'sweep': sweep}
@@ -299,6 +310,9 @@ def build_world(plan, w):
             if s['setup_marker']:
                 lines.append('[setup]')
                 lines.append('% suite-setup-' + key)
+        if s.get('indent'):
+            # a section header may be preceded by white space: it is the same header
+            lines = [(s['indent'] + ln) if (ln.startswith('[') and ln.endswith(']')) else ln for ln in lines]
         w.write(os.path.join('home', s['dir'], s['file']), '\n'.join(lines) + '\n')
         for c, f in order:
             text, ident, marker = ENDINGS[c['ending']]
@@ -422,6 +436,9 @@ def execute(plan, scratch):
     fsfaults = build_world(plan, w)
     faults = [{'id': 'ax' + c['id'], 'step': 'main', 'kind': 'raise_exc', 'exc': 'RuntimeError'}
               for s in plan['hierarchy'].values() for c in s['cases'] if c['ending'] == 'INTERNAL_ERROR']
+    faults += [{'id': 'cx' + c['id'], 'step': 'main', 'exc': 'RuntimeError',
+                'kind': 'raise_exc' if c['ending'] == 'CONF_INTERNAL_ERROR' else 'svh_hard'}
+               for s in plan['hierarchy'].values() for c in s['cases'] if c['ending'] in ('CONF_INTERNAL_ERROR', 'CONF_HARD_ERROR')]
     procs = {'atc': {'exit': 0}, 'failing': {'exit': 3, 'stderr': 'boom\n'}, 'stall': {'duration': 'inf'},
              'nostart': {'spawn_error': 'ENOENT'}, 'pp': {'exit': 0, 'cat_last_arg_file': True}}
     for s_ in plan['hierarchy'].values():
@@ -521,6 +538,8 @@ def _probes(plan, hist):
         for s in h.values():
             if s.get('reopen') and len(s['cases']) >= 2:
                 pr['section_reopened'] = 1
+            if s.get('indent'):
+                pr['section_headers_indented'] = 1
             if s.get('subs_style') == 'glob_dirs':
                 pr['suites_by_glob_of_directories'] = 1
             if s.get('subs_style') == 'glob_files':
